@@ -57,8 +57,24 @@ type Ticker struct {
 	t *time.Ticker
 }
 
-func NewTicker(d Duration) *Ticker { t := time.NewTicker(scaled(d)); return &Ticker{C: t.C, t: t} }
-func (t *Ticker) Stop()            { t.t.Stop() }
+// TickerHook, when it returns a channel for a duration, makes NewTicker(d) deliver from that channel only (a harness
+// that owns a background loop's period, e.g. the 60 s snapshot cleaner, fires it by hand or never).
+var TickerHook func(d Duration) <-chan Time
+
+func NewTicker(d Duration) *Ticker {
+	if h := TickerHook; h != nil {
+		if c := h(d); c != nil {
+			return &Ticker{C: c}
+		}
+	}
+	t := time.NewTicker(scaled(d))
+	return &Ticker{C: t.C, t: t}
+}
+func (t *Ticker) Stop() {
+	if t.t != nil {
+		t.t.Stop()
+	}
+}
 
 type Timer struct {
 	C <-chan Time
